@@ -184,7 +184,9 @@ def compile_body(stmts):
     key = prog_text(stmts)
     fn = _cache.get(key)
     if fn is None:
-        lines = ["async def body(env):"]
+        # every body first sets a ContextVar to a value of its own; every later log entry checks that the
+        # value is still visible (a coroutine's steps all run in one context) - see c01_run.CheckedLog
+        lines = ["async def body(env):", "    env.enter()"]
         _emit(stmts, 1, lines, [0])
         ns = {"asyncio": asyncio, "E1": E1, "E2": E2, "B1": B1, "BadYield": BadYield,
               "CancelledError": asyncio.CancelledError, "kind_of": kind_of}
